@@ -33,6 +33,31 @@ EXEMPT = {
 }
 
 
+def builders_of(fx, root, adts, depth=2):
+    """the function, its closures, and local helpers (to `depth` call levels) that construct one of `adts`:
+    extracting the frame conversion into a named function must not hide it from the analysis"""
+    out = list(fx.body_group(root))
+    seen = {g.path for g in out}
+    frontier = list(out)
+    for _ in range(depth):
+        nxt = []
+        for g in frontier:
+            for bi, t in g.calls():
+                d = t[1].get("d")
+                h = fx.fns.get(d) if d else None
+                if h is None or h.path in seen or not t[1].get("local"):
+                    continue
+                grp = fx.body_group(h)
+                if any(True for x in grp for _ in C.aggregates(fx, x, adts[0])) or any(True for x in grp for _ in C.aggregates(fx, x, adts[1])):
+                    for x in grp:
+                        if x.path not in seen:
+                            seen.add(x.path)
+                            out.append(x)
+                            nxt.append(x)
+        frontier = nxt
+    return out
+
+
 def run(tier):
     ck = Check("C07", tier, "field-level taint from the running VM's fields into the aggregates built by save_state, and from the saved state into the aggregates built by from_saved_state (closures included)",
                ["host schedules, batching and settlement order", "Promise.race/any/allSettled semantics",
@@ -50,7 +75,7 @@ def run(tier):
     ck.rule("R1.capture", "every field of BytecodeVM / TrampolineFrame flows into the saved state (or is exempt with a reason)", floor=30)
     cap = {VM: set(), TF: set()}
     nagg = 0
-    for g in fx.body_group(ss):
+    for g in builders_of(fx, ss, (SV, STF)):
         taint = C.field_taint(fx, g, {VM, TF})
         for adt in (SV, STF):
             for bi, s in C.aggregates(fx, g, adt):
@@ -84,7 +109,7 @@ def run(tier):
         if fx.tys(fs.locals[i]).endswith("SavedVmState"):
             state_param = i
     ck.anchor(state_param is not None, "from_saved_state takes a SavedVmState")
-    for g in fx.body_group(fs):
+    for g in builders_of(fx, fs, (VM, TF)):
         taint = C.field_taint(fx, g, {SV, STF}, param_local=state_param if g is fs else None)
         for adt in (VM, TF):
             for bi, s in C.aggregates(fx, g, adt):
